@@ -26,6 +26,9 @@ type part struct {
 	Topic string `json:"topic"`
 	ID    int    `json:"id"`
 	Rack  string `json:"rack"` // rack of the partition leader
+	// the partition is listed with an error of its own (what Conn.ReadPartitions gives for a partition reported with, say,
+	// LeaderNotAvailable): it is still a partition of the topic and has to be given to somebody
+	Err bool `json:"err,omitempty"`
 }
 
 type groupCase struct {
@@ -58,7 +61,11 @@ func toLib(c groupCase, order []int) ([]kafka.GroupMember, []kafka.Partition) {
 	}
 	ps := make([]kafka.Partition, 0, len(c.Parts))
 	for _, p := range c.Parts {
-		ps = append(ps, kafka.Partition{Topic: p.Topic, ID: p.ID, Leader: kafka.Broker{ID: 1, Rack: p.Rack}})
+		lp := kafka.Partition{Topic: p.Topic, ID: p.ID, Leader: kafka.Broker{ID: 1, Rack: p.Rack}}
+		if p.Err {
+			lp.Error = kafka.LeaderNotAvailable
+		}
+		ps = append(ps, lp)
 	}
 	return ms, ps
 }
@@ -315,6 +322,12 @@ func labelsOf(c groupCase) (labels []string, nontrivial bool) {
 			}
 		}
 	}
+	for _, p := range c.Parts {
+		if p.Err {
+			labels = append(labels, "partition_listed_with_error")
+			break
+		}
+	}
 	labels = append(labels, "balancer_"+c.Balancer)
 	return
 }
@@ -506,6 +519,11 @@ func genGroup(t *rapid.T) groupCase {
 	}
 	if rapid.Bool().Draw(t, "extraTopic") {
 		c.Parts = append(c.Parts, part{Topic: "unsubscribed", ID: 0, Rack: "a"})
+	}
+	if len(c.Parts) > 0 && rapid.IntRange(0, 3).Draw(t, "erroredPartitions") == 0 {
+		for k := rapid.IntRange(1, 3).Draw(t, "nErrored"); k > 0; k-- {
+			c.Parts[rapid.IntRange(0, len(c.Parts)-1).Draw(t, "errored")].Err = true
+		}
 	}
 	if len(c.Parts) > 1 && rapid.IntRange(0, 2).Draw(t, "interleaveTopics") == 0 {
 		// the partitions of different topics need not be listed topic by topic
